@@ -355,6 +355,13 @@ func namedConfigs() []cfg {
 		c.ResLogQ, c.EvalMod, c.Q0Above = []int{55, 40, 40}, 55, true
 		c.LogRatio = min(c.LogRatio, 55-40-2)
 		add(c)
+		// no encapsulation together with a first prime below the EvalMod scale: ModUp then multiplies the raised
+		// ciphertext by round(2^EvalModLogScale / Q0) > 1 on the branch that has no ephemeral key
+		c = base("noeph-q0-55-n9", 9)
+		c.ResLogQ = []int{55, 40, 40}
+		c.ResH, c.BtpH, c.Eph = 16, 16, 0
+		c.LogRatio = min(c.LogRatio, 55-40-2)
+		add(c)
 		c = base("logp1-n9", 9)
 		c.BtpLogP = []int{61}
 		add(c)
